@@ -344,3 +344,9 @@ impl vstd::std_specs::cmp::PartialOrdSpecImpl<u32> for Dsize {
 impl core::cmp::PartialOrd<u32> for Dsize {
     #[verifier::external_body] fn partial_cmp(&self, other: &u32) -> Option<core::cmp::Ordering> { self.0.partial_cmp(other) }
 }
+// `impl From<usize> for $name { fn from(v: usize) -> Self { $name(v as u32) } }` of the newtype macro (Degree)
+impl vstd::std_specs::convert::FromSpecImpl<usize> for Degree {
+    open spec fn obeys_from_spec() -> bool { true }
+    open spec fn from_spec(v: usize) -> Degree { Degree(v as u32) }
+}
+impl From<usize> for Degree { #[verifier::external_body] fn from(v: usize) -> (r: Degree) { Degree(v as u32) } }
